@@ -26,9 +26,14 @@
 (*   LawParity     P B(q) P = B(-q)          (Negate after a boost)        *)
 (*   LawZAgree     BoostZ(beta) = B((gamma,0,0,gamma beta))                *)
 (*   LawRotCompose R(a) R(b) = R(a+b) on the rational circle               *)
-(* TLC checks them exhaustively over Pythagorean parameter lattices that   *)
-(* are written literally into the configuration (vf/props/c08.py).         *)
-(* Trace_Lorentz re-uses part 1 to judge the IMPLEMENTATION's matrices.    *)
+(* TLC checks them exhaustively over the Pythagorean parameter lattices    *)
+(* written out in Lorentz_MC.tla (configurations in vf/props/c08.py).      *)
+(* Chains whose accumulated entries outgrow Cap are outside the model: the *)
+(* squares needed for eta-orthogonality must fit TLC's 32-bit integers.    *)
+(* The determinant is decided 32-bit-safely modulo a prime (see DetModP)   *)
+(* and cross-validated by an exact integer determinant where that fits.    *)
+(* Trace_Lorentz re-uses part 1 to judge the IMPLEMENTATION's matrices and *)
+(* drives part 2 with the logged chains.                                   *)
 (***************************************************************************)
 EXTENDS Integers, Sequences, FiniteSets, TLC
 
@@ -217,7 +222,7 @@ ApplyBoostZ(b) == n < MaxDepth /\ Apply(RefBoostZ(BetaOf(b), GammaOf(b)), "Boost
 ApplyRotY(a) == n < MaxDepth /\ Apply(RefRotY(CosSin(a)[1], CosSin(a)[2]), "RotY", a)
 ApplyRotZ(a) == n < MaxDepth /\ Apply(RefRotZ(CosSin(a)[1], CosSin(a)[2]), "RotZ", a)
 ApplyBoost(q) == n < MaxDepth /\ Apply(RefBoost(MassOf(q), VecOf(q)), "Boost", q)
-Moving(v) == v[2][1] # 0 \/ v[3][1] # 0 \/ v[4][1] # 0
+Moving(v) == <<v[2][1], v[3][1], v[4][1]>> # <<0, 0, 0>>     \* (no disjunction: TLC would split the action)
 \* B(p) has entries of the size of VecBig(p)^3: the guard keeps M' inside 32 bits
 ToRest == n < MaxDepth /\ Moving(p) /\ VecBig(p) <= RestCap /\ Apply(RefBoost(mass, p), "ToRest", <<>>)
 Negate ==
